@@ -1,4 +1,5 @@
 """Panic-site enumeration and discharge (PANIC-FREE rules of C03/C17/C08/C09)."""
+import re
 from . import analysis as A
 
 # externals that can panic (callee / resolved name suffixes)
@@ -71,12 +72,91 @@ def _atom(e):
     return repr(A.strip_refs(e))
 
 
+# ------------------------------------------------------------------------------------ slice-length summaries
+# `fn take(&mut self, n) -> Option<&[u8]>` returns, when it returns Some, the slice
+# `&self.octets[self.position..self.position + n]`, whose length is n.  A caller that indexes the result of
+# `take(2)?` relies on that; the summary is derived from the callee's MIR, not assumed.
+
+_PROG = None
+_SUMMARIES = {}
+_SLICE_START = {}       # key -> {(base path, start path)} of the slices a summarised function returns
+
+
+def set_program(prog):
+    global _PROG, _SUMMARIES
+    if _PROG is not prog:
+        _PROG = prog
+        _SUMMARIES = {}
+        _SLICE_START.clear()
+
+
+def slice_len_summary(key):
+    """for a local function returning (an Option / Result of) a slice: ('param', i) / ('const', n) when every
+    returned slice is `&base[s..e]` with e - s equal to that parameter / constant; None otherwise."""
+    if key in _SUMMARIES:
+        return _SUMMARIES[key]
+    _SUMMARIES[key] = None
+    f = _PROG.fns.get(key) if _PROG else None
+    if f is None or f.rec.get("async"):
+        return None
+    res = A.Resolver(f)
+    outs = set()
+    for b, e in A.return_exprs(f, res):
+        pe = A.peel_refs(e)
+        if pe[0] == "agg" and pe[2] in ("None", "Err"):
+            continue
+        if pe[0] == "agg" and pe[2] in ("Some", "Ok"):
+            pe = A.peel_refs(dict(pe[3])["0"])
+        if pe[0] == "call" and (pe[4] or pe[1]).endswith("ops::Index::index") and len(pe[2]) == 2:
+            rng = A.peel_refs(pe[2][1])
+            if rng[0] == "agg" and rng[1].endswith("ops::Range"):
+                d = dict(rng[3])
+                _SLICE_START.setdefault(key, set()).add((A.path_str(pe[2][0]), A.path_str(d["start"])))
+                diff = sub(lin(d["end"]), lin(d["start"]))
+                if not diff[0]:
+                    outs.add(("const", diff[1]))
+                    continue
+                if diff[1] == 0 and len(diff[0]) == 1:
+                    (atom, coef), = diff[0].items()
+                    if coef == 1 and atom.startswith("param") and atom[5:].isdigit():
+                        outs.add(("param", int(atom[5:])))
+                        continue
+        outs.add(None)
+    r = outs.pop() if len(outs) == 1 else None
+    _SUMMARIES[key] = r
+    return r
+
+
+def _summary_len(x, depth=0):
+    """linear form of len(x) when x is (the unwrapped payload of) a call to a summarised local function."""
+    x = A.peel_refs(x)
+    for _ in range(8):
+        if x[0] == "field" and x[2] == "0" and x[1][0] == "downcast" and x[1][2] in ("Continue", "Some", "Ok"):
+            x = A.peel_refs(x[1][1])
+        elif x[0] == "call" and x[2] and ((x[4] or "").endswith("Try::branch") or x[1].endswith("Option::<T>::ok_or") or x[1].endswith("::unwrap") or x[1].endswith("::expect")):
+            x = A.peel_refs(x[2][0])
+        else:
+            break
+    if x[0] == "call" and _PROG is not None and x[1] in _PROG.fns:
+        sm = slice_len_summary(x[1])
+        if sm is not None:
+            if sm[0] == "const":
+                return ({}, sm[1])
+            if sm[1] - 1 < len(x[2]):
+                return lin(x[2][sm[1] - 1], depth + 1)
+    return None
+
+
 def lin(e, depth=0):
     """linear form of an integer expression: ({atom: coef}, const)."""
     e = A.peel_refs(e)
     k = e[0]
     if depth > 12:
         return ({_atom(e): 1}, 0)
+    if (k == "call" and any(e[1].endswith(s_) for s_ in LEN_CALLS) and e[2]) or (k == "un" and e[1] == "PtrMetadata"):
+        sl = _summary_len(e[2][0] if k == "call" else e[2], depth)
+        if sl is not None:
+            return sl
     if k == "const" and isinstance(e[2], int) and not isinstance(e[2], bool):
         return ({}, e[2])
     if k == "field" and e[2] == "0" and A.peel_refs(e[1])[0] == "bin" and A.peel_refs(e[1])[1].endswith("WithOverflow"):
@@ -203,6 +283,14 @@ def intrinsic_constraints(e):
                     d = dict(it[3])
                     out.append(_c(lin(x0), lin(d["end"]), 1))
                     out.append(_c(lin(d["start"]), lin(x0), 0))
+        # `s.split(pat)` yields at least one item for every s (an empty s gives [""]), so a collection of all its items is non-empty
+        if x0[0] == "call" and any(x0[1].endswith(s_) for s_ in LEN_CALLS) and x0[2]:
+            src = A.peel(x0[2][0])
+            if src[0] == "call" and src[1].endswith("Iterator::collect") and src[2]:
+                it = A.peel(src[2][0])
+                if it[0] == "call" and it[1].endswith("<impl str>::split"):
+                    l = lin(x0)
+                    out.append(({k: -v for k, v in l[0].items()}, 1 - l[1]))
     return out
 
 
@@ -306,8 +394,13 @@ def ubound(fn, res, e, depth=0):
             r = A.peel(e[2][1])
             return r[2] - 1 if r[0] == "const" and isinstance(r[2], int) else 35
         if ((e[4] or n).endswith("Into::into") or (e[4] or "").endswith("Try::branch") or n.endswith("Option::<T>::ok_or") or n.endswith("::unwrap_or")
-                or n.endswith("From<u8>>::from") or n.endswith("From<u16>>::from") or n.endswith("From<u32>>::from")) and e[2]:
-            return ubound(fn, res, e[2][0], depth + 1)
+                or n.endswith("From<u8>>::from") or n.endswith("From<u16>>::from") or n.endswith("From<u32>>::from")
+                or re.search(r"From<(u8|u16|u32)> for (u16|u32|u64|u128|usize)>::from$", n)) and e[2]:
+            m = re.search(r"From<(u8|u16|u32)> for ", n)
+            ib = ubound(fn, res, e[2][0], depth + 1)
+            tb = TYPE_MAX.get(m.group(1)) if m else None
+            cands = [x for x in (ib, tb) if x is not None]
+            return min(cands) if cands else None
     if k == "un" and e[1] == "PtrMetadata":
         return LEN_MAX
     if k == "field":
@@ -346,6 +439,14 @@ def ubound(fn, res, e, depth=0):
             return max(bs)
     if k == "loop":
         return LEN_MAX          # accumulator over an in-memory iteration
+    if k == "upvar" and depth < 6:
+        # a captured variable: bound it where it is defined, in the enclosing function (single definition only)
+        parent = fn.prog.fns.get(fn.root_key) if fn.root_key != fn.key else None
+        for pf in ([parent] if parent is not None else []) + ([fn.prog.body_of(fn.root_key)] if parent is not None else []):
+            ls = [l for l, nm in pf.names.items() if nm == e[1]]
+            if len(ls) == 1 and pf.single_def(ls[0]) is not None:
+                pres = A.Resolver(pf)
+                return ubound(pf, pres, pres.local(ls[0], (0, 0)), depth + 2)
     if k == "param":
         ty = fn.local_ty(e[1])
         if ty in ("u8", "u16", "u32", "char", "bool"):
@@ -387,6 +488,7 @@ class Discharger:
         self.prog = prog
         self.justify = justify
         self.counts = {}
+        set_program(prog)
 
     def run(self, fns):
         per_fn = {}
